@@ -32,7 +32,7 @@ def bounds(tier):
 
 def goals(tier):
     return ["mixed-case-between-records", "region-lowered", "region-raised", "per-letter-overhang", "error-MissingModule", "error-DuplicateModules",
-            "error-InvalidSequence", "typing-accepts", "typing-rejects", "alternating", "per-letter-equal-vector-overhangs"]
+            "error-InvalidSequence", "typing-accepts", "typing-rejects", "alternating", "per-letter-equal-vector-overhangs", "ambiguity-code-N-in-either-case"]
 
 
 def alt(s, phase):
@@ -156,6 +156,20 @@ def run_unit(unit, st, tier):
                     cased[which] = s[:a] + seg + s[b:]
                     compare(st, "assembly", enz, up, cased, dict(family="assembly", enz=enz, k=k, plasmid=which, region=name, mode=mode), cache)
                     st.goal("region-lowered" if mode == "lower-in-upper" else "region-raised")
+        # the same with the ambiguity code N (the one non-nucleotide letter the structures accept) in every retained and
+        # discarded region: its case must not matter either
+        def with_n(s_):
+            return s_[: len(s_) // 2] + "N" + s_[len(s_) // 2 + 1:] if len(s_) >= 2 else s_
+        nb = dict(base, bodies=[with_n(b) for b in base["bodies"]], mbbs=[with_n(b) for b in base["mbbs"]],
+                  vbb=with_n(base["vbb"]), vph=with_n(base["vph"]), fills=[[("N" + f[0][1:]) if f[0] else f[0], f[1]] for f in base["fills"]])
+        vecn, modsn = asm.pieces_to_plasmids(nb)
+        upn = [vecn.upper()] + [m.upper() for m in modsn]
+        g0 = gen.geometry_of(gen.enzyme(enz))
+        if all(rm.count_sites(p_, g0) == 2 for p_ in upn):
+            for combo in itertools.product(["U", "L", "A0", "A1"], repeat=k + 1):
+                cased = [transform(s, t) for s, t in zip(upn, combo)]
+                compare(st, "assembly", enz, upn, cased, dict(family="assembly", enz=enz, k=k, case=list(combo), with_N=True), cache)
+                st.goal("ambiguity-code-N-in-either-case")
         st.sample(dict(family="assembly", enz=enz, k=k, case=["U"] + ["L"] * k))
     elif kind == "letters":
         enz, k = arg
